@@ -38,6 +38,7 @@ class Loop:
     ghost: dict = field(default_factory=dict)  # name -> (init(x), step(x))
     modifies: Optional[tuple] = None  # heap components written by the body (None: syntactic scan)
     decreases: Optional[Callable] = None
+    exit_facts: list = field(default_factory=list)  # ghost asserts after the loop: each proved, then assumed
 
 
 class Contract:
